@@ -103,7 +103,28 @@ tags: ordered
     'f.csv': '''Pattern,Merchant,Category,Subcategory
 NETFLIX,Netflix Two,Bills,Net
 ''',
+    # an uncompilable pattern in the middle: it must be skipped on every classification alike
+    'h.csv': '''Pattern,Merchant,Category,Subcategory,Tags
+*MART,Broken Regex,Misc,Bad,
+UBER,Uber After Bad,Transport,Ride,car
+COFFEE(,Unbalanced,Misc,Bad,
+COFFEE,Coffee After Bad,Food,Cafe,
+RENT[amount>100],Rent Csv,Housing,Rent,
+''',
 }
+GEN_CSV_PATTERNS = ['UBER', 'UBER.*EATS', 'COFFEE', '*BAD', 'NETFLIX', 'COFFEE(', 'RENT[amount>100]', 'contains("UBER") and amount > 10', '[', 'UBER|COFFEE']
+
+
+def gen_csv_text(rng):
+    lines = ['Pattern,Merchant,Category,Subcategory,Tags']
+    for k in range(rng.randint(2, 5)):
+        cat, sub = rng.choice(GEN_CATS)
+        p_ = rng.choice(GEN_CSV_PATTERNS)
+        lines.append('%s,%s %d,%s,%s,%s' % ('"%s"' % p_.replace('"', '""') if ',' in p_ or '"' in p_ else p_, rng.choice(GEN_NAMES), k, cat, sub,
+                                            rng.choice(['', 'fun', 'biz|fun'])))
+    return '\n'.join(lines) + '\n'
+
+
 EDITS = {
     'a.rules': ['''[Netflix]
 match: contains("NETFLIX")
@@ -325,7 +346,7 @@ def gen_history(rng, tier):
         return gen_expr_history(rng)
     n = rng.randint(5, 40)
     ops = []
-    extra = {'g1.rules': gen_rules_text(rng), 'g2.rules': gen_rules_text(rng), 'g3.rules': gen_rules_text(rng)}
+    extra = {'g1.rules': gen_rules_text(rng), 'g2.rules': gen_rules_text(rng), 'g3.rules': gen_rules_text(rng), 'g4.csv': gen_csv_text(rng)}
     ops.append({'op': 'FILES', 'files': extra})
     names = sorted(RULE_FILES) + sorted(extra) + sorted(extra)
     engines = 0
@@ -337,7 +358,7 @@ def gen_history(rng, tier):
         elif r < 0.27:
             if rng.random() < 0.5:
                 p = rng.choice(sorted(extra))
-                ops.append({'op': 'EDIT', 'path': p, 'text': gen_rules_text(rng)})
+                ops.append({'op': 'EDIT', 'path': p, 'text': gen_csv_text(rng) if p.endswith('.csv') else gen_rules_text(rng)})
             else:
                 p = rng.choice(sorted(EDITS))
                 ops.append({'op': 'EDIT', 'path': p, 'version': rng.randrange(len(EDITS[p]))})
